@@ -48,9 +48,18 @@ impl Rule for RegexRule {
 
 impl RuleMaker for RegexRule {
     fn make(expression: &str) -> Result<Box<dyn Rule>> {
-        let expression = cleanup_unrecognized_escape_sequences(expression);
-        let expression = escape_misused_repetition_quantifier(&expression);
-        let expression = escape_misused_character_class(&expression);
+        // an expression that is a regular expression as it stands is taken as
+        // written; the clean-ups are for expressions that are not
+        let expression = if ByteRegex::new(expression).is_ok() {
+            expression.to_string()
+        } else {
+            let expression = cleanup_unrecognized_escape_sequences(expression);
+            let expression = escape_misused_repetition_quantifier(&expression);
+            let expression = escape_misused_character_class(&expression);
+            // must be an expression of its own, or anchoring it as a whole is not
+            ByteRegex::new(&expression)?;
+            expression
+        };
         let regex = ByteRegex::new(&format!("^(?:{})$", expression))?;
         Ok(Box::new(RegexRule(expression, regex)))
     }
